@@ -2,7 +2,9 @@ package aggregator
 
 import (
 	"crypto/md5"
+	"errors"
 	"fmt"
+	"math"
 	"sort"
 	"sync"
 	"time"
@@ -54,6 +56,10 @@ type msg struct {
 
 // New creates an aggregator
 func New(fun string, matcher matcher.Matcher, outFmt string, cache bool, interval, wait uint, dropRaw bool, out chan []byte) (*Aggregator, error) {
+	// (it must also fit in a time.Duration once expressed in nanoseconds)
+	if interval == 0 || interval > uint(math.MaxInt64/int64(time.Second)) {
+		return nil, errors.New("interval must be > 0 (and at most 292 years)")
+	}
 	ticker := clock.AlignedTick(time.Duration(interval)*time.Second, time.Duration(wait)*time.Second, 2)
 	return NewMocked(fun, matcher, outFmt, cache, interval, wait, dropRaw, out, 2000, time.Now, ticker)
 }
@@ -62,6 +68,13 @@ func NewMocked(fun string, matcher matcher.Matcher, outFmt string, cache bool, i
 	procConstr, err := GetProcessorConstructor(fun)
 	if err != nil {
 		return nil, err
+	}
+	// the interval is a divisor and the regex is what the aggregator matches and expands with
+	if interval == 0 {
+		return nil, errors.New("interval must be > 0")
+	}
+	if matcher.Regex == "" {
+		return nil, errors.New("an aggregation needs a regex")
 	}
 
 	a := &Aggregator{
